@@ -23,3 +23,15 @@ func FuzzC04(f *testing.F) {
 		}
 	})
 }
+
+// Regression inputs found by the fuzzer that turned out to be mistakes of the
+// check itself (kept so that they stay fixed).
+func TestC04FuzzRegressions(t *testing.T) {
+	for _, c := range []Case{
+		{Unit: "\xe0", Bits: []uint64{9218868437227405315, 0x3ff0000000000000}}, // invalid UTF-8 cannot be written as a regexp
+	} {
+		if v := Check(c); v.Violation != "" {
+			t.Errorf("%q: %s", c.Unit, v.Violation)
+		}
+	}
+}
